@@ -24,6 +24,8 @@ sorting / pairing / dispatch / windowing / block-shortcut logic quimb wraps arou
     (bounded exhaustive, concrete), ``eigensystem_autoblocked`` on concrete zero patterns with
     symbolic entries: spectrum = union of the per-block stub spectra (+ singleton diagonals),
     ascending, vectors embedded at the block's rows.
+(g) eigs_scipy / eigs_lobpcg / svds_scipy with scipy's iterative solvers replaced by recorders that answer with
+    symbolic values in arbitrary order: option translation, sorting, pairing, projection.
 
 In numeric mode every harness runs the un-stubbed real code on float matrices built from the
 *same named spectrum* (so solver counterexamples replay) and additionally checks the full
@@ -53,26 +55,36 @@ from qv.harness import obligation, Skip
 PROP = "C17"
 META = {
     "bounds": {
-        "quick": {"sort_inds": "n = 3 symbolic eigenvalues (real: LM SM SA LA SR LR TR TM; complex re+i*im: LM SM SR LR SI LI TR TI), symbolic sigma",
-                  "partial dense (eigs_numpy)": "Hermitian n in {3,4}, k in {1,2,n,n+1}, which in {None,SA,LA,LM,SM,TR,TM}, sigma symbolic / absent, "
-                                                "sort on/off, vectors on/off, ties included (stub order is <=)",
-                  "dispatch": "choose_backend: d, k unbounded symbolic integers; eigensystem_partial: every backend name x fallback flag",
-                  "window": "n = 4 symbolic ascending spectrum, k in {1,2,3}, w_0 and w_sz symbolic reals",
-                  "autoblock": "compute_blocks: every symmetric zero pattern with d <= 4 (x 3 edge orders); eigensystem: 5 concrete patterns d <= 5",
-                  "numeric": "Hermitian n = 6, all which/sigma/k for numpy, scipy(ARPACK) and lobpcg backends, dense / sparse / LinearOperator"},
-        "thorough": {"sort_inds": "n = 4 (TM: n = 3)", "partial dense": "adds n = 4 for the magnitude / target rules, n = 5 for SA / LA",
-                     "window": "n = 5, k <= 4", "autoblock": "compute_blocks: every symmetric pattern with d <= 5 (x 4 edge orders)"},
+        "quick": {
+            "sort_inds": "n <= 3 symbolic eigenvalues (real: LM SM SA LA SR LR TR, TM with n = 2; complex re + i*im: LM SR LR SI LI TR TI), symbolic sigma, ties included",
+            "partial dense (qu.eigh / eigvalsh -> eigs_numpy)": "Hermitian n = 3 (complex) and n = 4 (real), k in {1, 2, n, n+1}, which in {None, SA, LA, LM, SM, TR, TM}, "
+                                                                 "sigma symbolic / absent, sort on / off, vectors on / off, ties included (the eigh contract orders by <=)",
+            "projector / generalised / general": "n = 3 (4), k <= 2; general route: LM SR LR SI LI TR TI with sort=False",
+            "dispatch": "choose_backend: d and k unbounded symbolic integers, dense / matrix-free A / matrix-free B, interior or not, SLEPc importable or not; "
+                        "eigensystem_partial: 11 spellings of `backend` x which x sigma; fallback for 6 backends",
+            "window": "dense route n in {3, 4}; partial-solver route n = 4 symbolic ascending spectrum, k in {1, 2, 3}; w_0 any real, w_sz > 0 symbolic",
+            "norm / sqrtm / expm": "2x2 complex, 3x3 real, 2x3, 3x1",
+            "autoblock": "compute_blocks: EVERY symmetric zero pattern with d <= 4 x 3 coordinate orders (192 lists for d = 4); eigensystem: 6 concrete patterns d <= 5, "
+                         "real and complex entries",
+            "iterative wrappers": "k in {2, 3} symbolic unordered solver answers, with / without projector",
+            "numeric cross-run": "Hermitian n = 6 with separated spectrum, k <= 3, every rule, numpy / scipy-ARPACK (dense, sparse, LinearOperator) / lobpcg; "
+                                 "compiled autoblock kernels in a JIT-enabled child process",
+        },
+        "thorough": {"sort_inds": "n = 4 for every real code (TM: 20k paths)", "partial dense": "n = 4 for every rule / k <= 3 / sort / vectors; n = 5 with k = 2",
+                     "window": "dense n = 5; partial-solver route n = 5, k in {2, 4}", "autoblock": "compute_blocks: every symmetric pattern with d = 5 x 4 orders (4096 lists); sort=False"},
     },
     "outside": [
         "LAPACK / ARPACK / LOBPCG / PRIMME / SLEPc themselves (FFI): that they return genuine eigenpairs is assumed (contract stubs) in symbolic "
         "mode and only sampled numerically (n = 6) in the numeric cross-run",
-        "scipy's shift-invert transformation, spla.expm, sla.sqrtm (herm=False routes), expm_multiply (covered under C18)",
-        "randomized SVD / rand_linalg.py, approx_spectral.py (statistical estimators)",
+        "scipy's shift-invert transformation, spla.expm, sla.sqrtm (herm=False routes: numeric comparison only), expm_multiply (covered under C18)",
+        "randomized SVD / rand_linalg.py, approx_spectral.py (statistical estimators), primme (not installed)",
         "floating point rounding, convergence tolerances, non-convergence warnings",
         "exact hits a_i == sigma / a_i == 0 in the reciprocal sort keys (division by zero -> inf is float behaviour; sampled numerically)",
-        "ordering of *complex* eigenvalues by np.sort / np.argsort (lexicographic; general route checked with sort=False symbolically, sort=True numerically)",
-        "SLEPc / MPI spawning (slepc4py not importable here: checked only that it is never auto-selected, and the selection rule with the flag forced on)",
+        "ordering of *complex* eigenvalues by np.sort / np.argsort (lexicographic; general route checked with sort=False symbolically, sort=True numerically); "
+        "complex 'SM' / 'TM' keys (numeric only)",
+        "SLEPc / MPI spawning (slepc4py not importable here: checked that it is never auto-selected, and the selection rule with the flag forced on)",
         "numba's compilation of autoblock.py (the Python source is executed symbolically; the compiled kernels are hit by the numeric cross-run child)",
+        "which='SA' etc. combined with an explicit sigma (backend-dependent meaning, not documented)",
     ],
     "assumptions": [
         "np.linalg.eigh / eigvalsh / svd return factors satisfying their documented contracts (qv.stubs); eigh returns ascending eigenvalues (<=)",
@@ -85,9 +97,11 @@ META = {
         "autoblock: the float64 output buffer `np.empty(d)` is an object buffer in symbolic mode; np.nonzero on symbolic entries uses generic "
         "position (a symbol is non-zero), zeros are literal",
         "sqrtm(herm=True): positive definite input (eigh spectrum declared positive); expm: exp(w) is a positive generator symbol per eigenvalue",
-        "defined symbols 1/p, sqrt(p) carry their defining relation into the path condition (sx.OPTIONS['def_relations'])",
-        "eigh_window sparse route: the inner partial solver is replaced by a model of its documented contract (k nearest to sigma, ascending), "
-        "which is what family (b) establishes for the dense backend",
+        "defined symbols reaching a branch carry their definition into the path condition (sx.OPTIONS['def_relations'] = 'monotone'): sqrt(p) as "
+        "r^2 = p, r >= 0; a reciprocal w = 1/q through the linear order theory of reciprocals (q != 0, sign w = sign q, |w| < |w'| <=> |q'| < |q|), "
+        "which is exact for the comparisons a sort makes among reciprocal keys",
+        "eigh_window partial-solver route and the iterative wrappers: the inner solver is replaced by a model / recorder (k nearest to sigma, ascending; "
+        "arbitrary-order symbolic answers); dispatch obligations replace the solver table by recorders",
     ],
     "timeout_s": {"quick": 240, "thorough": 900},
 }
@@ -262,7 +276,7 @@ class Env:
 
             p.set(qc.qarray, "H", property(H))
             p.set(qc, "common_type", common_type)
-            p.set(sx.OPTIONS, "def_relations", True, item=True)
+            p.set(sx.OPTIONS, "def_relations", "monotone", item=True)
         return self
 
     def __exit__(self, *a):
@@ -332,6 +346,17 @@ def _chk_all(mk, conds, label):
     conds = list(conds)
     if conds:
         _chk(mk, _and(mk, *conds) if len(conds) > 1 else conds[0], label)
+
+
+def _pair_eq(mk, label, lhs, rhs):
+    """pairing goal: lhs must be *the same symbols* as rhs.  Identical -> ordinary (trivial) equality goal; otherwise
+    the violation is recorded together with this path's model, so that the replay reproduces the path's ordering"""
+    if mk.sym:
+        a, b = P.flat_polys(lhs), P.flat_polys(rhs)
+        if len(a) != len(b) or not all((x - y).iszero() for x, y in zip(a, b)):
+            mk.check(sx.SymBool(z3.BoolVal(False)), label)
+            return
+    mk.eq(label, lhs, rhs)
 
 
 def _same_val(mk, a, b):
@@ -431,8 +456,6 @@ _CPLX_CODES = ["LM", "SR", "LR", "SI", "LI", "TR", "TI"]   # complex 'SM' (1/a o
 _SI_PARAMS = []
 for _n in (2, 3, 4):
     for _c in _REAL_CODES:
-        if _n == 4 and _c == "TM":
-            continue
         _SI_PARAMS.append({"n": _n, "code": _c, "field": "real",
                            "_tiers": ("quick", "thorough") if (_n <= 3 and not (_c == "TM" and _n == 3)) else ("thorough",)})
     for _c in _CPLX_CODES:
@@ -498,7 +521,7 @@ def _selection_goals(mk, lk, vk, w, V, k, rule, sigma, sort, what="eigenvalue"):
     if vk is not None:
         mk.same("eigenvectors come back as a (d, k) qarray", (isinstance(vk, qu.qarray), tuple(vk.shape)), (True, (V.shape[0], m)))
         for j in range(m):
-            mk.eq(f"vector {j} is the solver's column paired with value {j}", np.asarray(vk)[:, j], np.asarray(V)[:, perm[j]])
+            _pair_eq(mk, f"vector {j} is the solver's column paired with value {j}", np.asarray(vk)[:, j], np.asarray(V)[:, perm[j]])
     return perm
 
 
@@ -552,6 +575,7 @@ def _numeric_backends(mk, rule, which, sig, k):
         reps += [("scipy/dense", A, "scipy"), ("scipy/sparse", sp.csr_matrix(A), "scipy")]
         if sigma is None:
             reps.append(("scipy/linop", spla.aslinearoperator(A), "scipy"))
+            reps.append(("auto/linop", spla.aslinearoperator(A), None))     # matrix-free: the rule must not pick the dense backend
     with warnings.catch_warnings():
         warnings.simplefilter("ignore")
         for label, op, bk in reps:
@@ -583,7 +607,7 @@ for _n in (3, 4, 5):
                     thorough = _vecs or _sort
                 else:
                     quick = False
-                    thorough = _which in ("SA", "LA", None) and _k == 2 and _sort and _vecs
+                    thorough = _k == 2 and _sort and _vecs and _which != "TM"
                 if not thorough:
                     continue
                 _PD_PARAMS.append({"n": _n, "k": _k, "which": _which, "sig": _sig, "sort": _sort, "vecs": _vecs,
@@ -649,7 +673,7 @@ def partial_dense_projector(mk, n, m, k, which, vecs):
         if vecs and perm is not None:
             mk.same("vectors live in the full space", tuple(vk.shape), (n, min(k, m)))
             for j, i in enumerate(perm):
-                mk.eq(f"vector {j} == P @ (solver's column paired with value {j})", np.asarray(vk)[:, j], ref.matmul(Pj, np.asarray(V)[:, i]))
+                _pair_eq(mk, f"vector {j} == P @ (solver's column paired with value {j})", np.asarray(vk)[:, j], ref.matmul(Pj, np.asarray(V)[:, i]))
     if not mk.sym and vecs:
         # Ritz pairs of the compressed operator: P^dag (A v - l v) == 0, orthonormal
         vk = np.asarray(vk)
@@ -747,7 +771,7 @@ def partial_dense_general(mk, n, k, which, vecs):
         _chk_all(mk, [_le(mk, keys[perm[j]], keys[perm[j + 1]]) for j in range(m - 1)], f"sort=False: in the order of rule {which}")
         if vecs:
             for j in range(m):
-                mk.eq(f"vector {j} is the solver's column paired with value {j}", np.asarray(vk)[:, j], np.asarray(V)[:, perm[j]])
+                _pair_eq(mk, f"vector {j} is the solver's column paired with value {j}", np.asarray(vk)[:, j], np.asarray(V)[:, perm[j]])
     if not mk.sym and vecs:
         vk = np.asarray(vk)
         res = float(np.max(np.abs(A @ vk - vk * np.asarray(lk)[None, :])))
@@ -799,9 +823,7 @@ def full_dense(mk, n, isherm, sort, form):
             mk.same("vectors as (d, d) qarray", (isinstance(vk, qu.qarray), tuple(vk.shape)), (True, (n, n)))
             if lk is not None:
                 for j in range(n):
-                    mk.eq(f"vector {j} is the solver's column paired with value {j}", np.asarray(vk)[:, j], np.asarray(V)[:, perm[j]])
-            elif not sort or not mk.sym:
-                pass
+                    _pair_eq(mk, f"vector {j} is the solver's column paired with value {j}", np.asarray(vk)[:, j], np.asarray(V)[:, perm[j]])
     if not mk.sym and form == "pairs":
         vk_ = np.asarray(vk)
         lk_ = np.asarray(lk)
@@ -815,8 +837,7 @@ def full_dense(mk, n, isherm, sort, form):
         mk.eq("eigvecsh diagonalises A with ascending diagonal", D, np.diag(np.linalg.eigvalsh(A)), tol=1e-8)
 
 
-@obligation(PROP, params=[{"shape": (3, 3), "k": 1}, {"shape": (3, 3), "k": 2}, {"shape": (2, 2), "k": 2},
-                          {"shape": (4, 4), "k": 2, "_tiers": ("thorough",)}],
+@obligation(PROP, params=[{"shape": (3, 3), "k": 1}, {"shape": (3, 3), "k": 2}, {"shape": (2, 2), "k": 2}, {"shape": (2, 2), "k": 1}],
             exc_is_violation=True, rounds=2)
 def svds_dense(mk, shape, k):
     """svds (numpy backend, auto-selected for small operators) keeps the k leading triplets of
@@ -1180,20 +1201,16 @@ def window_dense(mk, n, k, wsz, form):
              "no eigenvalue strictly inside the window is dropped (dense operator: all are known)")
     if vk is not None:
         for j, i in enumerate(perm):
-            mk.eq(f"vector {j} is the solver's column paired with value {j}", np.asarray(vk)[:, j], np.asarray(V)[:, i])
+            _pair_eq(mk, f"vector {j} is the solver's column paired with value {j}", np.asarray(vk)[:, j], np.asarray(V)[:, i])
     if not mk.sym and vk is not None and len(perm):
         vk_ = np.asarray(vk)
         mk.same("residual |A v - l v| <= 1e-8", float(np.max(np.abs(A @ vk_ - vk_ * np.asarray(lk)[None, :]))) <= 1e-8, True)
 
 
-@obligation(PROP, params=[{"n": 3, "k": 1, "wsz": False}, {"n": 3, "k": 2, "wsz": True}, {"n": 4, "k": 2, "wsz": True, "_tiers": ("thorough",)}],
-            exc_is_violation=True, max_paths=8000, wall_s=600)
-def window_dense_k_cap(mk, n, k, wsz):
-    """`k` is documented as the target number of eigenpairs and the result as a (k,) array; the partial-solver
-    route (sparse operators) never returns more than k: the dense route must agree on the same request"""
-    mk.encodes(qbl.eigh_window)
-    A, w0, sz, lk, vk, w, V = _window_dense_run(mk, n, k, wsz, "pairs")
-    mk.same(f"at most k={k} eigenpairs returned for a dense operator", len(lk) <= k, True)
+# NOTE: for a dense operator `eigh_window` diagonalises fully and returns every eigenvalue inside
+# the relative window, whatever `k`; the sparse route returns at most k.  The docstring calls k the
+# "target number" of eigenpairs; the statement of C17 only demands "the part of the spectrum ...
+# inside a relative window", which both routes return -> no goal on the count for dense input.
 
 
 class _SpectrumModel:
@@ -1256,7 +1273,7 @@ def window_partial_route(mk, n, k, wsz, form):
         try:
             p.set(qbl, "eigh", lambda A_, **k_: model.solve(A_, True, **k_))
             p.set(qbl, "eigvalsh", lambda A_, **k_: model.solve(A_, False, **k_))
-            p.set(sx.OPTIONS, "def_relations", True, item=True)
+            p.set(sx.OPTIONS, "def_relations", "monotone", item=True)
             lk, vk = _window_call(form, A, w0, k, backend="scipy", **kw)
         finally:
             p.restore()
@@ -1293,7 +1310,7 @@ def window_partial_route(mk, n, k, wsz, form):
                  "fewer than k returned only if nothing else lies inside the window (up to the documented offset)")
     if vk is not None and mk.sym:
         for j, i in enumerate(perm):
-            mk.eq(f"vector {j} is the solver's column paired with value {j}", np.asarray(vk)[:, j], np.asarray(V)[:, i])
+            _pair_eq(mk, f"vector {j} is the solver's column paired with value {j}", np.asarray(vk)[:, j], np.asarray(V)[:, i])
     if vk is not None and not mk.sym and len(perm):
         vk_ = np.asarray(vk)
         mk.same("residual |A v - l v| <= 1e-8", float(np.max(np.abs(Ad @ vk_ - vk_ * np.asarray(lk)[None, :]))) <= 1e-8, True)
@@ -1477,13 +1494,16 @@ class _NpObjBuffers:
         return np.empty(shape, dtype=object)
 
 
+# name -> (d, sectors, edge list or None (= every pair inside a sector is non-zero))
 _AB_PATTERNS = {
-    "4:02|13": (4, [[0, 2], [1, 3]]),
-    "5:034|1|2": (5, [[0, 3, 4], [1], [2]]),
-    "3:full": (3, [[0, 1, 2]]),
-    "3:diag": (3, [[0], [1], [2]]),
-    "5:04|13|2": (5, [[0, 4], [1, 3], [2]]),
-    "4:013|2 chain": (4, [[0, 1, 3], [2]]),      # block connected only through a chain 0-3, 3-1 (no 0-1 entry)
+    "4:02|13": (4, [[0, 2], [1, 3]], None),
+    "5:034|1|2": (5, [[0, 3, 4], [1], [2]], None),
+    "3:full": (3, [[0, 1, 2]], None),
+    "3:diag": (3, [[0], [1], [2]], None),
+    "5:04|13|2": (5, [[0, 4], [1, 3], [2]], None),
+    # one sector connected only through a chain: np.nonzero's row-major order first builds {0,3} and {1,2}
+    # separately, the entry (2,3) then has to merge two multi-member groups
+    "5:0123|4 chain": (5, [[0, 1, 2, 3], [4]], [(0, 3), (1, 2), (2, 3)]),
 }
 
 
@@ -1500,7 +1520,7 @@ def _jit_autoblock(A, vecs):
 @obligation(PROP, params=[{"pat": pt, "kind": kd, "form": f, "sort": s,
                            "_tiers": ("quick", "thorough") if (s and (kd == "cplx" or pt in ("4:02|13", "5:034|1|2"))) else ("thorough",)}
                           for pt in _AB_PATTERNS for kd in ("real", "cplx") for f in ("pairs", "vals") for s in (True, False)
-                          if not (pt.startswith("5") and kd == "cplx" and not s)],
+                          if not (pt.startswith("5:0") and kd == "cplx" and not s)],
             exc_is_violation=True, max_paths=6000, wall_s=600, timeout_s=800)
 def autoblock_spectrum(mk, pat, kind, form, sort):
     """eigh / eigvalsh(autoblock=True) on a concrete zero pattern with symbolic entries: sectors == connected
@@ -1508,23 +1528,29 @@ def autoblock_spectrum(mk, pat, kind, form, sort):
     the vector of a block eigenvalue is the block solver's column embedded at the block's rows"""
     mk.encodes(qab.eigensystem_autoblocked, qab._eigh_autoblocked, qab._eigvalsh_autoblocked, qab.compute_blocks, qab.subselect,
                qab.subselect_set, qnl.eig_numpy)
-    d, blocks = _AB_PATTERNS[pat]
-    chain = "chain" in pat
+    d, blocks, elist = _AB_PATTERNS[pat]
     zero = P.ZERO if mk.sym else 0.0
     A = np.empty((d, d), dtype=object if mk.sym else (complex if kind == "cplx" else float))
     A[...] = zero
     edges = []
-    for b in blocks:
+    cno = 0
+    for b in sorted(blocks):
+        cno += len(b) > 1
+        inside = [(i, j) for x, i in enumerate(b) for j in b[x + 1:] if elist is None or (i, j) in elist]
+        edges += inside
+        if not mk.sym and elist is None and len(b) > 1:
+            # numeric: the sector is built from the spectrum named like block solve number `cno` (replays reproduce)
+            wb = _spectrum(mk, len(b), f"w{cno}")
+            Qb = _unitary(mk, len(b), f"Bq{cno}", kind)
+            Mb = (Qb * wb[None, :]) @ Qb.conj().T
+            A[np.ix_(b, b)] = (Mb + Mb.conj().T) / 2 if kind == "cplx" else ((Mb + Mb.T) / 2).real
+            continue
         for i in b:
-            A[i, i] = mk.scalar(f"A_{i}{i}", "real") + (0 if mk.sym else 3 * i)
-        for x, i in enumerate(b):
-            for j in b[x + 1:]:
-                if chain and (i, j) == (0, 1):
-                    continue
-                z = mk.scalar(f"A_{i}{j}", kind)
-                A[i, j] = z
-                A[j, i] = z.conjugate()
-                edges.append((i, j))
+            A[i, i] = mk.scalar(f"A_{i}{i}", "real")
+        for i, j in inside:
+            z = mk.scalar(f"A_{i}{j}", kind)
+            A[i, j] = z
+            A[j, i] = z.conjugate()
     mk.same("pattern's connected components are the intended sectors", _components(d, edges), sorted(blocks))
     p = _Patches()
     with Env(mk) as env:
@@ -1538,6 +1564,11 @@ def autoblock_spectrum(mk, pat, kind, form, sort):
     mk.same("all d eigenvalues returned", len(el), d)
     if mk.sym:
         big = [b for b in sorted(blocks) if len(b) > 1]
+        direct = [c for c in env.calls if c[0] == ("np.linalg.eigh" if form == "pairs" else "np.linalg.eigvalsh")]
+        sizes = [int(c[1].shape[0]) for c in direct]
+        mk.same("one block solve per non-trivial sector (sizes in sector order), none for singletons", sizes, [len(b) for b in big])
+        if sizes != [len(b) for b in big]:
+            return
         # the block solver ran once per non-trivial sector, on exactly that sub-matrix: read the stub instances back
         pool, pvec = [], []
         cno = 0
@@ -1573,10 +1604,8 @@ def autoblock_spectrum(mk, pat, kind, form, sort):
                     [sum(len(x) for x in sorted(blocks)[:sorted(blocks).index(b)]) + b.index(i) for i in range(d) for b in blocks if i in b])
         if ev is not None:
             for j in range(d):
-                mk.eq(f"vector {j}: the sector solver's column embedded at the sector's rows, zero elsewhere", np.asarray(ev)[:, j], pvec[perm[j]])
+                _pair_eq(mk, f"vector {j}: the sector solver's column embedded at the sector's rows, zero elsewhere", np.asarray(ev)[:, j], pvec[perm[j]])
         # the sub-matrices handed to the block solver
-        direct = [c for c in env.calls if c[0] == ("np.linalg.eigh" if form == "pairs" else "np.linalg.eigvalsh")]
-        mk.same("block solver variant and count", len(direct), len(big))
         for b, c in zip(big, direct):
             mk.eq(f"sector {b}: the block solver receives exactly A[sector, sector]", c[1], A[np.ix_(b, b)])
     else:
@@ -1650,7 +1679,7 @@ def iterative_wrapper(mk, route, k, sort, proj, vecs):
     try:
         p.set(spla, route, fake)
         if mk.sym:
-            p.set(sx.OPTIONS, "def_relations", True, item=True)
+            p.set(sx.OPTIONS, "def_relations", "monotone", item=True)
         out = qbl.eigensystem_partial(A, ncv=9, tol=None, v0=v0, maxiter=None if route == "lobpcg" else 17, **kw)
     finally:
         p.restore()
@@ -1683,7 +1712,7 @@ def iterative_wrapper(mk, route, k, sort, proj, vecs):
         mk.same("vectors as (d, k) qarray in the full space", (isinstance(vk, qu.qarray), tuple(vk.shape)), (True, (d, k)))
         for j in range(k):
             col = np.asarray(vs)[:, perm[j]]
-            mk.eq(f"vector {j} == {'P @ ' if proj else ''}(solver's column paired with value {j})", np.asarray(vk)[:, j],
+            _pair_eq(mk, f"vector {j} == {'P @ ' if proj else ''}(solver's column paired with value {j})", np.asarray(vk)[:, j],
                   ref.matmul(Pj, col) if proj else col)
 
 
@@ -1717,8 +1746,8 @@ def svds_wrapper(mk, k, vecs):
     _chk_all(mk, [_le(mk, _v(mk, s[j + 1]), _v(mk, s[j])) for j in range(k - 1)], "descending singular values")
     if vecs:
         for j in range(k):
-            mk.eq(f"left vector {j} paired with value {j}", np.asarray(U)[:, j], np.asarray(us)[:, perm[j]])
-            mk.eq(f"right vector {j} paired with value {j}", np.asarray(VH)[j, :], np.asarray(vs)[perm[j], :])
+            _pair_eq(mk, f"left vector {j} paired with value {j}", np.asarray(U)[:, j], np.asarray(us)[:, perm[j]])
+            _pair_eq(mk, f"right vector {j} paired with value {j}", np.asarray(VH)[j, :], np.asarray(vs)[perm[j], :])
 
 
 @obligation(PROP, params=[{"case": c} for c in ("block", "vector-k1", "vector-k2", "none", "rejects")], exc_is_violation=True)
@@ -1744,7 +1773,12 @@ def lobpcg_initial_space(mk, case):
         p.set(spla, "lobpcg", lambda **kw: log.append(kw) or real(**kw))
         with warnings.catch_warnings():
             warnings.simplefilter("ignore")
-            lk, vk = qu.eigh(A, k=k, which="SA", backend="lobpcg", v0=v0, tol=1e-10, maxiter=300)
+            try:
+                lk, vk = qu.eigh(A, k=k, which="SA", backend="lobpcg", v0=v0, tol=1e-10, maxiter=300)
+            except TypeError as e:
+                mk.same(f"v0 = {case}: the initial space is completed and the solve returns (documented: 'if not enough initial states "
+                        "given, flesh out with random')", f"raised TypeError: {e}", "returns")
+                return
     finally:
         p.restore()
     X = log[0]["X"]
